@@ -185,10 +185,9 @@ pub fn explore(ctx: &Ctx) {
         }
         v
     } else {
-        let mut v: Vec<NaiveDate> = dates_of_years(&[2024]).into_iter().step_by(3).collect();
+        let mut v: Vec<NaiveDate> = dates_of_years(&[2024]).into_iter().step_by(6).collect();
         v.extend(d_seam(1600, 1600));
         v.extend(d_seam(2399, 2399));
-        v.extend(d_seam(2023, 2023));
         v
     };
     // dates used where a nearest-good-day search cannot succeed (|lat| >= 85): ~33 ms per call
